@@ -564,12 +564,12 @@ def stepped_trace(info):
     return ev
 
 
-def iterate_trace(S, iv, K, niter, seed, nn, epsilon, preseed):
-    """A full solve() / iterate() run of the real code, recorded through wrapped methods.
-    Returns (events, a, g, exc)."""
+def recorded_hmf(S, iv, K, niter, seed, nn, epsilon):
+    """Construct a real HMF object whose step methods are wrapped for recording.  Returns solve(): a function that
+    runs the real solve() / iterate() and returns (events, a, g, exc) - construction and solution are separate so
+    that the global RNG can be used in between."""
     from pydl.pydlspec2d.spec1d import HMF
     S0, iv0 = S.copy(), iv.copy()
-    np.random.seed(preseed)                      # the twin runs start from different global states
     h = HMF(S, iv, K=K, n_iter=niter, seed=seed, nonnegative=nn, epsilon=epsilon)
     m = Meter(h)
     ev = []
@@ -615,19 +615,60 @@ def iterate_trace(S, iv, K, niter, seed, nn, epsilon, preseed):
     h.astep, h.astepnn = wrap_a('astep'), wrap_a('astepnn')
     h.gstep, h.gstepnn = wrap_g('gstep'), wrap_g('gstepnn')
     h.reorder, h.normbase = wrap_reorder, wrap_normbase
-    try:
-        with warnings.catch_warnings():
-            warnings.simplefilter('ignore')
-            out = h.solve()                      # solve() runs iterate() and returns {'acoeff': a, 'flux': g}
-            a, g = np.asarray(out['acoeff']), np.asarray(out['flux'])
-    except Exception as ex:
-        return ev, None, None, '%s: %s' % (type(ex).__name__, str(ex)[:100])
-    if pend['model'] is not None:                # the last normalisation is judged on the RETURNED factors
-        ev.append(event('norm', dmodel=m.dmodel(pend['model'], a, g), rms=m.rms(g), neg=isneg(a, g)))
-        pend['model'] = None
-    ev.append(event('done', neg=isneg(a, g), same=True,
-                    untouched=bool(np.array_equal(S, S0) and np.array_equal(iv, iv0))))
-    return ev, np.array(a), np.array(g), None
+
+    def solve():
+        try:
+            with warnings.catch_warnings():
+                warnings.simplefilter('ignore')
+                out = h.solve()                  # solve() runs iterate() and returns {'acoeff': a, 'flux': g}
+                a, g = np.asarray(out['acoeff']), np.asarray(out['flux'])
+        except Exception as ex:
+            return ev, None, None, '%s: %s' % (type(ex).__name__, str(ex)[:100])
+        if pend['model'] is not None:            # the last normalisation is judged on the RETURNED factors
+            ev.append(event('norm', dmodel=m.dmodel(pend['model'], a, g), rms=m.rms(g), neg=isneg(a, g)))
+            pend['model'] = None
+        ev.append(event('done', neg=isneg(a, g), same=True,
+                        untouched=bool(np.array_equal(S, S0) and np.array_equal(iv, iv0))))
+        return ev, np.array(a), np.array(g), None
+    return solve
+
+
+def twin_runs(info, seed):
+    """Two runs of the same (data, K, seed, mode) under the RNG history info['hist']; the results of solve() may
+    depend on nothing else.  Returns [(events, a, g, exc), (events, a, g, exc)].
+      fresh : seed the global RNG differently, construct and solve at once - twice
+      A     : construct both objects first, use the global RNG, solve the first, use it again, solve the second
+      C     : construct one object, construct and solve an UNRELATED HMF, then solve the first;
+              versus a fresh construct-and-solve"""
+    rng = np.random.RandomState(info['dseed'])
+    S, iv = make_data(rng, info['N'], info['M'], info.get('R', 2), info['nn'], 0.1)
+    adv = np.random.RandomState((info['dseed'] + 1) % 2**31).randint(1, 40, size=3)
+
+    def new():
+        return recorded_hmf(S.copy(), iv.copy(), info['K'], info['niter'], seed, info['nn'], info['epsilon'])
+    hist = info.get('hist', 'fresh')
+    if hist == 'fresh':
+        out = []
+        for twin in (0, 1):
+            np.random.seed(1000 + 77 * twin)     # the twin runs start from different global states
+            out.append(new()())
+        return out
+    np.random.seed(1000)
+    if hist == 'A':
+        s1 = new()
+        s2 = new()
+        np.random.random(int(adv[0]))
+        r1 = s1()
+        np.random.random(int(adv[1]))
+        return [r1, s2()]
+    if hist == 'C':
+        s1 = new()
+        S2, iv2 = make_data(np.random.RandomState((info['dseed'] + 2) % 2**31), 12, 24, 2, info['nn'], 0.1)
+        recorded_hmf(S2, iv2, 2, 1, None, info['nn'], None)()
+        r1 = s1()
+        np.random.random(int(adv[2]))
+        return [r1, new()()]
+    raise core.MachineryError('unknown RNG history %r' % hist)
 
 
 def validate_traces(ctx, traces, label):
@@ -655,12 +696,8 @@ def build_traces(info, base):
     if info['how'] == 'stepped':
         ev = stepped_trace(info)
         return [{'nn': info['nn'], 'eps': eps_flag(info['epsilon']), 'niter': info['niter'], 'twin': 0, 'events': ev}], [None]
-    rng = np.random.RandomState(info['dseed'])
-    S, iv = make_data(rng, info['N'], info['M'], info.get('R', 2), info['nn'], 0.1)
     out, excs, first = [], [], None
-    for twin in (0, 1):
-        ev, a, g, exc = iterate_trace(S.copy(), iv.copy(), info['K'], info['niter'], info['seed'], info['nn'],
-                                      info['epsilon'], preseed=1000 + 77 * twin)
+    for twin, (ev, a, g, exc) in enumerate(twin_runs(info, info['seed'])):
         if exc is None:
             if twin == 0:
                 first = (a, g)
@@ -672,29 +709,16 @@ def build_traces(info, base):
     return out, excs
 
 
-def plain_solve(info, seed, preseed):
-    from pydl.pydlspec2d.spec1d import HMF
-    rng = np.random.RandomState(info['dseed'])
-    S, iv = make_data(rng, info['N'], info['M'], info.get('R', 2), info['nn'], 0.1)
-    np.random.seed(preseed)
-    with warnings.catch_warnings():
-        warnings.simplefilter('ignore')
-        out = HMF(S, iv, K=info['K'], n_iter=info['niter'], seed=seed, nonnegative=info['nn'],
-                  epsilon=info['epsilon']).solve()
-    return np.asarray(out['acoeff']), np.asarray(out['flux'])
-
-
-def seed_sensitive_data(ctx, rng, nn):
-    """A data seed for which two solve() runs WITHOUT a seed, started from the two global RNG states the twins use,
-    give different factors (control pair): only there does 'same seed => identical results' say anything."""
+def seed_sensitive_data(ctx, rng, nn, hist):
+    """A data seed for which two UNSEEDED runs under the same RNG history give different factors (control pair):
+    only there does 'same seed => identical results' say anything."""
     for _ in range(12):
-        dseed = rng.randrange(2**31)
-        info = {'N': 30, 'M': 60, 'R': 3, 'K': 4, 'nn': nn, 'epsilon': None, 'niter': 2, 'dseed': dseed}
-        a1, g1 = plain_solve(info, None, 1000)
-        a2, g2 = plain_solve(info, None, 1077)
+        info = {'how': 'solve', 'N': 30, 'M': 60, 'R': 3, 'K': 4, 'nn': nn, 'epsilon': None, 'niter': 2,
+                'hist': hist, 'dseed': rng.randrange(2**31)}
+        (_, a1, g1, x1), (_, a2, g2, x2) = twin_runs(info, None)
         ctx.evaluated(2, 'hmf-seed-control')
-        if not (np.array_equal(a1, a2) and np.array_equal(g1, g2)):
-            return dseed
+        if x1 is None and x2 is None and not (np.array_equal(a1, a2) and np.array_equal(g1, g2)):
+            return info['dseed']
     raise core.MachineryError('no data found on which unseeded HMF runs differ: the seed law would be vacuous')
 
 
@@ -747,12 +771,15 @@ def hmf_traces(ctx, rep, behaviours):
                     N, M = (14, 28) if ctx.quick else [(14, 28), (20, 40), (24, 36)][rep_i]
                     add({'how': 'solve', 'N': N, 'M': M, 'K': K, 'nn': nn, 'epsilon': epsilon,
                          'seed': rng.randrange(1, 10**6), 'niter': 2 if ctx.quick else 3, 'dseed': rng.randrange(2**31)})
-    # ---- seed = 0 twins, on data where an UNSEEDED pair really differs (so the law is not vacuous) ----
+    # ---- seed = 0 and non-zero twins under three RNG histories (see twin_runs), on data where an UNSEEDED pair
+    #      under the same history really differs (so the law is not vacuous) ----
     for nn in (False, True):
-        for _ in range(1 if ctx.quick else 3):
-            info = {'how': 'solve', 'N': 30, 'M': 60, 'R': 3, 'K': 4, 'nn': nn, 'epsilon': None, 'seed': 0,
-                    'niter': 2, 'dseed': seed_sensitive_data(ctx, rng, nn)}
-            add(info)
+        for hist in ('fresh', 'A', 'C'):
+            for seed in ((0, 'r') if hist != 'fresh' else (0,)):
+                for _ in range(1 if ctx.quick else 2):
+                    add({'how': 'solve', 'N': 30, 'M': 60, 'R': 3, 'K': 4, 'nn': nn, 'epsilon': None, 'hist': hist,
+                         'seed': 0 if seed == 0 else rng.randrange(1, 10**6), 'niter': 2,
+                         'dseed': seed_sensitive_data(ctx, rng, nn, hist)})
     judge_traces(ctx, rep, traces, infos, excs, 'Trace_LinSolve[hmf %d traces]' % len(traces))
     ctx.sample({'hmf_trace': infos[0], 'events_head': traces[0]['events'][:3]})
     ctx.sample({'hmf_trace': infos[-1], 'n_events': len(traces[-1]['events']), 'last_event': traces[-1]['events'][-1]})
